@@ -10,13 +10,15 @@ exception (class and cause).  All theorems hold for EVERY fuel, nesting depth, s
 -/
 namespace PsModel.C02
 
+deriving instance DecidableEq for Except
+
 def toCall (r : Except Exc (Option Nat) × World) : Option (Except Exc (Option Nat)) × World := (some r.1, r.2)
 
 /-- **Statement level, any cfg.**  On the fragment `confL cfg` the pyscript evaluator and Python agree on every
 block, for every fuel / handled-exception context / world. -/
 theorem C02_block_partial (cfg : Cfg) (sub : Nat → Nat → Bool) (n : Nat) (h : Option Exc) (ss : List Stmt) (w : World)
-    (hc : confL cfg ss = true) : lift (PS.stmts cfg sub n h ss w) = Py.block sub n h ss w :=
-  (agree_all cfg sub n).2.1 h ss w hc
+    (hok : HOk cfg h) (hc : confL cfg ss = true) : lift (PS.stmts cfg sub n h ss w) = Py.block sub n h ss w :=
+  (agree_all cfg sub n).2.1 h ss w hok hc
 
 /-- **Function level, any cfg.**  For function bodies that CPython's compiler accepts (no `break`/`continue` outside
 a loop) and that lie in the fragment, calling the function gives the same log, the same returned value or the same
@@ -30,7 +32,7 @@ theorem C02_call_partial (cfg : Cfg) (sub : Nat → Nat → Bool) (n : Nat) (bod
     simp only [confL, Bool.and_eq_true] at hc
     simp only [freeJumpL, Bool.or_eq_false_iff] at hs
     simp only [PS.bodyStmts, Py.callBody]
-    have h1 := (agree_all cfg sub n).1 none s w hc.1
+    have h1 := (agree_all cfg sub n).1 none s w (hok_none cfg) hc.1
     have hnj := (nj_all sub n).1 none s w hs.1
     simp only [lift] at h1
     rcases hps : PS.exec cfg sub n none s w with ⟨r, w'⟩
@@ -44,47 +46,283 @@ theorem C02_call_partial (cfg : Cfg) (sub : Nat → Nat → Bool) (n : Nat) (bod
       | ret v => simp [Res.toOut, Marker.toOut, toCall]
     · simp [Res.toOut, toCall]
 
-/-- the repaired configuration: both deviation flags on -/
-def Cfg.python : Cfg := { loopElsePropagates := true, withNested := true }
+/-- the Python configuration: every deviation flag on -/
+def Cfg.python : Cfg := { loopElsePropagates := true, withNested := true, catchesBase := true }
 
 mutual
-theorem confS_python (cfg : Cfg) (h1 : cfg.loopElsePropagates = true) (h2 : cfg.withNested = true) :
-    ∀ s, confS cfg s = true
+theorem confS_python (cfg : Cfg) (h1 : cfg.loopElsePropagates = true) (h2 : cfg.withNested = true)
+    (h3 : cfg.catchesBase = true) : ∀ s, confS cfg s = true
   | .tick _ => by simp [confS]
   | .brk => by simp [confS]
   | .cont => by simp [confS]
   | .ret _ => by simp [confS]
-  | .raise _ _ => by simp [confS]
+  | .raise _ _ => by simp [confS, h3]
   | .reraise => by simp [confS]
   | .assert_ _ => by simp [confS]
-  | .ite _ b o => by simp [confS, confL_python cfg h1 h2 b, confL_python cfg h1 h2 o]
-  | .while_ _ b o => by simp [confS, confL_python cfg h1 h2 b, confL_python cfg h1 h2 o, h1]
-  | .for_ _ b o => by simp [confS, confL_python cfg h1 h2 b, confL_python cfg h1 h2 o, h1]
+  | .suspend _ => by simp [confS, h3]
+  | .ite _ b o => by simp [confS, confL_python cfg h1 h2 h3 b, confL_python cfg h1 h2 h3 o]
+  | .while_ _ b o => by simp [confS, confL_python cfg h1 h2 h3 b, confL_python cfg h1 h2 h3 o, h1]
+  | .for_ _ b o => by simp [confS, confL_python cfg h1 h2 h3 b, confL_python cfg h1 h2 h3 o, h1]
   | .try_ b hs o f => by
-      simp [confS, confL_python cfg h1 h2 b, confH_python cfg h1 h2 hs, confL_python cfg h1 h2 o,
-        confL_python cfg h1 h2 f]
-  | .with_ _ b => by simp [confS, confL_python cfg h1 h2 b, withOk, h2]
-theorem confL_python (cfg : Cfg) (h1 : cfg.loopElsePropagates = true) (h2 : cfg.withNested = true) :
-    ∀ ss, confL cfg ss = true
+      simp [confS, confL_python cfg h1 h2 h3 b, confH_python cfg h1 h2 h3 hs, confL_python cfg h1 h2 h3 o,
+        confL_python cfg h1 h2 h3 f]
+  | .with_ _ b => by simp [confS, confL_python cfg h1 h2 h3 b, withOk, h2, h3]
+theorem confL_python (cfg : Cfg) (h1 : cfg.loopElsePropagates = true) (h2 : cfg.withNested = true)
+    (h3 : cfg.catchesBase = true) : ∀ ss, confL cfg ss = true
   | [] => by simp [confL]
-  | s :: ss => by simp [confL, confS_python cfg h1 h2 s, confL_python cfg h1 h2 ss]
-theorem confH_python (cfg : Cfg) (h1 : cfg.loopElsePropagates = true) (h2 : cfg.withNested = true) :
-    ∀ hs, confH cfg hs = true
+  | s :: ss => by simp [confL, confS_python cfg h1 h2 h3 s, confL_python cfg h1 h2 h3 ss]
+theorem confH_python (cfg : Cfg) (h1 : cfg.loopElsePropagates = true) (h2 : cfg.withNested = true)
+    (h3 : cfg.catchesBase = true) : ∀ hs, confH cfg hs = true
   | [] => by simp [confH]
-  | .mk _ _ b :: hs => by simp [confH, confL_python cfg h1 h2 b, confH_python cfg h1 h2 hs]
+  | .mk _ _ b :: hs => by simp [confH, confL_python cfg h1 h2 h3 b, confH_python cfg h1 h2 h3 hs, h3]
+end
+
+mutual
+/-- no source of a BaseException-only exception: no `raise` of such a class, no suspension point (the task may be cancelled
+there), no manager method / `except` type expression raising one -/
+def quietS : Stmt → Bool
+  | .raise c _ => !baseOnly c
+  | .suspend _ => false
+  | .ite _ b o => quietL b && quietL o
+  | .while_ _ b o => quietL b && quietL o
+  | .for_ _ b o => quietL b && quietL o
+  | .try_ b hs o f => quietL b && quietH hs && quietL o && quietL f
+  | .with_ items b => quietL b && items.all WItem.quiet
+  | _ => true
+def quietL : List Stmt → Bool
+  | [] => true
+  | s :: ss => quietS s && quietL ss
+def quietH : List Handler → Bool
+  | [] => true
+  | .mk _ pre b :: hs => quietL b && pre.quiet && quietH hs
+end
+
+mutual
+theorem confS_quiet (cfg : Cfg) (h1 : cfg.loopElsePropagates = true) (h2 : cfg.withNested = true) :
+    ∀ s, quietS s = true → confS cfg s = true
+  | .tick _, _ => by simp [confS]
+  | .brk, _ => by simp [confS]
+  | .cont, _ => by simp [confS]
+  | .ret _, _ => by simp [confS]
+  | .raise _ _, hq => by simp only [quietS] at hq; simp [confS, hq]
+  | .reraise, _ => by simp [confS]
+  | .assert_ _, _ => by simp [confS]
+  | .suspend _, hq => by simp [quietS] at hq
+  | .ite _ b o, hq => by
+      simp only [quietS, Bool.and_eq_true] at hq
+      simp [confS, confL_quiet cfg h1 h2 b hq.1, confL_quiet cfg h1 h2 o hq.2]
+  | .while_ _ b o, hq => by
+      simp only [quietS, Bool.and_eq_true] at hq
+      simp [confS, confL_quiet cfg h1 h2 b hq.1, confL_quiet cfg h1 h2 o hq.2, h1]
+  | .for_ _ b o, hq => by
+      simp only [quietS, Bool.and_eq_true] at hq
+      simp [confS, confL_quiet cfg h1 h2 b hq.1, confL_quiet cfg h1 h2 o hq.2, h1]
+  | .try_ b hs o f, hq => by
+      simp only [quietS, Bool.and_eq_true] at hq
+      simp [confS, confL_quiet cfg h1 h2 b hq.1.1.1, confH_quiet cfg h1 h2 hs hq.1.1.2, confL_quiet cfg h1 h2 o hq.1.2,
+        confL_quiet cfg h1 h2 f hq.2]
+  | .with_ items b, hq => by
+      simp only [quietS, Bool.and_eq_true] at hq
+      simp only [confS, confL_quiet cfg h1 h2 b hq.1, withOk, h2, hq.2, Bool.or_true, Bool.true_or, Bool.and_self]
+theorem confL_quiet (cfg : Cfg) (h1 : cfg.loopElsePropagates = true) (h2 : cfg.withNested = true) :
+    ∀ ss, quietL ss = true → confL cfg ss = true
+  | [], _ => by simp [confL]
+  | s :: ss, hq => by
+      simp only [quietL, Bool.and_eq_true] at hq
+      simp [confL, confS_quiet cfg h1 h2 s hq.1, confL_quiet cfg h1 h2 ss hq.2]
+theorem confH_quiet (cfg : Cfg) (h1 : cfg.loopElsePropagates = true) (h2 : cfg.withNested = true) :
+    ∀ hs, quietH hs = true → confH cfg hs = true
+  | [], _ => by simp [confH]
+  | .mk _ _ b :: hs, hq => by
+      simp only [quietH, Bool.and_eq_true] at hq
+      simp [confH, confL_quiet cfg h1 h2 b hq.1.1, hq.1.2, confH_quiet cfg h1 h2 hs hq.2]
 end
 
 /-- **Full statement** for the repaired handlers: with both deviation flags on, every program CPython accepts is
 executed exactly as Python executes it (no fragment hypothesis left). -/
 theorem C02_full (sub : Nat → Nat → Bool) (n : Nat) (body : List Stmt) (w : World) (hs : freeJumpL body = false) :
     toCall (PS.bodyStmts Cfg.python sub n body w) = Py.callBody sub n body w :=
-  C02_call_partial Cfg.python sub n body w (confL_python Cfg.python rfl rfl body) hs
+  C02_call_partial Cfg.python sub n body w (confL_python Cfg.python rfl rfl rfl body) hs
 
-/-- **Today's code** (`Current.cfg`: after the `fix:` commits both handlers have their Python shape): every function body
-that CPython's compiler accepts is executed exactly as Python executes it – no fragment hypothesis. -/
-theorem C02_current (sub : Nat → Nat → Bool) (n : Nat) (body : List Stmt) (w : World) (hs : freeJumpL body = false) :
+/-- **Today's code** (`Current.cfg`: after the `fix:` commits the loop-else and `with` handlers have their Python shape; what
+is left is `except Exception` in `ast_try` / `with_items`, finding C02-F4): every function body that CPython's compiler
+accepts and that has no source of a BaseException-only exception (`quietL`) is executed exactly as Python executes it. -/
+theorem C02_current (sub : Nat → Nat → Bool) (n : Nat) (body : List Stmt) (w : World) (hq : quietL body = true)
+    (hs : freeJumpL body = false) :
     toCall (PS.bodyStmts Current.cfg sub n body w) = Py.callBody sub n body w :=
-  C02_call_partial Current.cfg sub n body w (confL_python Current.cfg rfl rfl body) hs
+  C02_call_partial Current.cfg sub n body w (confL_quiet Current.cfg rfl rfl body hq) hs
+
+/-! ### the `finally` clause runs for EVERY way out of the try statement (all programs, all fuel)
+
+`PS.tryPart` is the body / `except` clauses / `else` part of `ast_try` (what sits inside Python's own `try … finally:` there).
+Its result may be: nothing, a stop-flow marker, an exception of an ordinary class, or an exception of a BaseException-only
+class (task cancellation at a suspension point, SystemExit, …) – the latter passes every `except` clause (C02-F4) but
+NOT the `finally` clause. -/
+
+/-- the try/except/else part of `ast_try` -/
+def PS.tryPart (cfg : Cfg) (sub : Nat → Nat → Bool) (n : Nat) (h : Option Exc) (b : List Stmt) (hs : List Handler)
+    (o : List Stmt) (w : World) : Res × World :=
+  match PS.stmts cfg sub n h b w with
+  | (.exc e, w1) =>
+    if skipsHandlers cfg e then (.exc e, w1) else
+    match selectHandler sub e hs w1 with
+    | (.found hb, w2) => PS.stmts cfg sub n (some e) hb w2
+    | (.notFound, w2) => (.exc e, w2)
+    | (.raised e2, w2) => (.exc e2, w2)
+  | (.ok (some m), w1) => (.ok (some m), w1)
+  | (.ok none, w1) => PS.stmts cfg sub n h o w1
+
+/-- the same part in the reference semantics -/
+def Py.tryPart (sub : Nat → Nat → Bool) (n : Nat) (h : Option Exc) (b : List Stmt) (hs : List Handler)
+    (o : List Stmt) (w : World) : Out × World :=
+  match Py.block sub n h b w with
+  | (.raise e, w1) =>
+    match selectHandler sub e hs w1 with
+    | (.found hb, w2) => Py.block sub n (some e) hb w2
+    | (.notFound, w2) => (.raise e, w2)
+    | (.raised e2, w2) => (.raise e2, w2)
+  | (.normal, w1) => Py.block sub n h o w1
+  | r => r
+
+theorem stmts_nil (cfg : Cfg) (sub : Nat → Nat → Bool) (n : Nat) (h : Option Exc) (w : World) :
+    PS.stmts cfg sub n h [] w = (.ok none, w) := by
+  cases n <;> simp [PS.stmts]
+
+/-- **`finally` runs for every outcome (pyscript).**  Whatever the try/except/else part produced – `r` ranges over ALL
+results: fall-through, break / continue / return markers, exceptions of ordinary AND of BaseException-only classes – the
+final body is executed next, in the world that part left, and its completion is combined with the pending result by
+`PS.finish` (a marker or exception of the final body replaces the pending one, otherwise the pending one stands). -/
+theorem C02_finally_every_outcome (cfg : Cfg) (sub : Nat → Nat → Bool) (n : Nat) (h : Option Exc) (b : List Stmt)
+    (hs : List Handler) (o f : List Stmt) (w : World) :
+    PS.exec cfg sub (n + 1) h (.try_ b hs o f) w =
+      PS.finish (PS.tryPart cfg sub n h b hs o w).1
+        (PS.stmts cfg sub n (PS.handlingIn (PS.tryPart cfg sub n h b hs o w).1 h) f (PS.tryPart cfg sub n h b hs o w).2) := by
+  simp only [PS.exec, PS.tryPart]
+  rfl
+
+/-- `PS.tryPart` is not an artefact of the statement above: it is the try statement with its `finally` clause removed -/
+theorem C02_try_part_is_try_without_finally (cfg : Cfg) (sub : Nat → Nat → Bool) (n : Nat) (h : Option Exc) (b : List Stmt)
+    (hs : List Handler) (o : List Stmt) (w : World) :
+    PS.exec cfg sub (n + 1) h (.try_ b hs o []) w = PS.tryPart cfg sub n h b hs o w := by
+  rw [C02_finally_every_outcome, stmts_nil]
+  rfl
+
+/-- the first statement of a `finally` clause is executed (here a tracer: its event is appended to the log left by the
+try/except/else part) for every result `r` of that part – there is no case distinction on `r` at all -/
+theorem C02_finally_first_statement (cfg : Cfg) (sub : Nat → Nat → Bool) (k : Nat) (h : Option Exc) (b : List Stmt)
+    (hs : List Handler) (o f : List Stmt) (i : Nat) (w : World) :
+    PS.exec cfg sub (k + 3) h (.try_ b hs o (.tick i :: f)) w =
+      PS.finish (PS.tryPart cfg sub (k + 2) h b hs o w).1
+        (PS.stmts cfg sub (k + 1) (PS.handlingIn (PS.tryPart cfg sub (k + 2) h b hs o w).1 h) f
+          ((PS.tryPart cfg sub (k + 2) h b hs o w).2.emit (.tick i))) := by
+  rw [C02_finally_every_outcome]
+  simp only [PS.stmts, PS.exec]
+
+/-- **BaseException-only exceptions pass the `except` clauses (today, C02-F4) …** no clause expression is evaluated (the
+world is the one the body left), the `else` clause is skipped -/
+theorem C02_base_passes_handlers (cfg : Cfg) (hcb : cfg.catchesBase = false) (sub : Nat → Nat → Bool) (n : Nat)
+    (h : Option Exc) (b : List Stmt) (hs : List Handler) (o : List Stmt) (w w1 : World) (e : Exc)
+    (hb : PS.stmts cfg sub n h b w = (.exc e, w1)) (hbase : baseOnly e.cls = true) :
+    PS.tryPart cfg sub n h b hs o w = (.exc e, w1) := by
+  simp [PS.tryPart, hb, skipsHandlers, hcb, hbase]
+
+/-- **… but not the `finally` clause**: the final body runs with that exception pending (a bare `raise` in it re-raises it,
+a `return` / `break` / `continue` in it replaces it) -/
+theorem C02_base_runs_finally (cfg : Cfg) (hcb : cfg.catchesBase = false) (sub : Nat → Nat → Bool) (n : Nat)
+    (h : Option Exc) (b : List Stmt) (hs : List Handler) (o f : List Stmt) (w w1 : World) (e : Exc)
+    (hb : PS.stmts cfg sub n h b w = (.exc e, w1)) (hbase : baseOnly e.cls = true) :
+    PS.exec cfg sub (n + 1) h (.try_ b hs o f) w = PS.finish (.exc e) (PS.stmts cfg sub n (some e) f w1) := by
+  rw [C02_finally_every_outcome, C02_base_passes_handlers cfg hcb sub n h b hs o w w1 e hb hbase]
+  rfl
+
+/-- the reference semantics has the same law (so "the clause runs" means the same thing on both sides) -/
+theorem C02_py_finally_every_outcome (sub : Nat → Nat → Bool) (n : Nat) (h : Option Exc) (b : List Stmt)
+    (hs : List Handler) (o f : List Stmt) (w : World) :
+    Py.exec sub (n + 1) h (.try_ b hs o f) w =
+      Py.finish (Py.tryPart sub n h b hs o w).1
+        (Py.block sub n (Py.handlingIn (Py.tryPart sub n h b hs o w).1 h) f (Py.tryPart sub n h b hs o w).2) := by
+  simp only [Py.exec, Py.tryPart]
+  rfl
+
+/-- a manager is exited when a BaseException-only exception leaves its block, but (today, C02-F4) `__exit__` is called
+with `(None, None, None)` and what it returns is ignored; an exception raised by `__exit__` replaces the pending one -/
+theorem C02_base_exit_without_info (cfg : Cfg) (hcb : cfg.catchesBase = false) (m : WItem) (e : Exc) (w : World)
+    (hbase : baseOnly e.cls = true) :
+    PS.withFinish cfg [m] (.exc e, w) =
+      ((match m.exitRaises with | some c => .exc { cls := c } | none => .exc e), w.emit (.exit m.id none)) := by
+  cases hx : m.exitRaises <;> simp [PS.withFinish, skipsHandlers, hcb, hbase, PS.exitAll, hx]
+
+/-- the class lattice of the witnesses: 0 = `Exception` (every class that is not BaseException-only), else equality -/
+def pySub : Nat → Nat → Bool := fun a b => a == b || (b == 0 && !baseOnly a)
+
+def outcomeCls : Except Exc (Option Nat) → Option Nat
+  | .error e => some e.cls
+  | .ok _ => none
+
+/-- a task cancelled while it is suspended inside nested try statements inside a loop: both `finally` clauses run (7, 8),
+the handler and the `else` clause do not (5, 6), the loop ends, `CancelledError` propagates – exactly as in Python -/
+def cancelNested : List Stmt :=
+  [.for_ 1 [.try_ [.try_ [.tick 2, .suspend 3, .tick 4] [.mk (some [0]) .plain [.tick 5]] [.tick 6] [.tick 7]] [] [] [.tick 8]] [],
+   .tick 9]
+theorem C02_cancel_runs_every_finally :
+    (PS.bodyStmts Current.cfg pySub 20 cancelNested { tape := [3, 2] }).2.log = [.tick 1, .tick 2, .tick 3, .tick 7, .tick 8] ∧
+    outcomeCls (PS.bodyStmts Current.cfg pySub 20 cancelNested { tape := [3, 2] }).1 = some cancelledError ∧
+    toCall (PS.bodyStmts Current.cfg pySub 20 cancelNested { tape := [3, 2] }) = Py.callBody pySub 20 cancelNested { tape := [3, 2] } := by
+  decide
+
+/-- non-vacuity of `C02_base_passes_handlers` / `C02_base_runs_finally`: a body that ends in a BaseException-only exception -/
+example : PS.stmts Current.cfg pySub 5 none [.tick 2, .suspend 3, .tick 4] { tape := [2] }
+    = (.exc { cls := cancelledError }, { log := [.tick 2, .tick 3], tape := [] }) ∧ baseOnly cancelledError = true := by decide
+
+/-- `continue` / `return` in a `finally` clause replaces a pending cancellation (as in Python) -/
+def cancelReplaced : List Stmt :=
+  [.for_ 1 [.try_ [.suspend 2] [] [] [.tick 3, .cont]] [], .try_ [.suspend 4] [] [] [.ret 5]]
+theorem C02_jump_in_finally_replaces_cancellation :
+    (PS.bodyStmts Current.cfg pySub 20 cancelReplaced { tape := [2, 2, 2, 2] }).2.log
+      = [.tick 1, .tick 2, .tick 3, .tick 2, .tick 3, .tick 4] ∧
+    toCall (PS.bodyStmts Current.cfg pySub 20 cancelReplaced { tape := [2, 2, 2, 2] })
+      = (some (.ok (some 5)), { log := [.tick 1, .tick 2, .tick 3, .tick 2, .tick 3, .tick 4], tape := [] }) ∧
+    toCall (PS.bodyStmts Current.cfg pySub 20 cancelReplaced { tape := [2, 2, 2, 2] })
+      = Py.callBody pySub 20 cancelReplaced { tape := [2, 2, 2, 2] } := by
+  decide
+
+/-! ### C02-F4 (open): what `except Exception` inside the interpreter costs -/
+
+/-- `try: raise B0() except B0: T(1)` – Python catches, pyscript lets it pass -/
+def cexBaseHandler : List Stmt := [.try_ [.raise 200 none] [.mk (some [200]) .plain [.tick 1]] [] [.tick 2]]
+theorem C02_cex_baseexception_handler :
+    (PS.bodyStmts Current.cfg pySub 20 cexBaseHandler {}).2.log = [.tick 2] ∧
+    outcomeCls (PS.bodyStmts Current.cfg pySub 20 cexBaseHandler {}).1 = some 200 ∧
+    (Py.callBody pySub 20 cexBaseHandler {}).2.log = [.tick 1, .tick 2] := by decide
+
+/-- `with CM(suppress=True): raise B0()` – Python's `__exit__` sees the exception and suppresses it; pyscript calls
+`__exit__(None, None, None)` and the exception propagates -/
+def cexBaseExit : List Stmt := [.with_ [{ id := 1, suppress := true }] [.raise 200 none], .tick 2]
+theorem C02_cex_baseexception_exit :
+    (PS.bodyStmts Current.cfg pySub 20 cexBaseExit {}).2.log = [.init 1, .enter 1, .exit 1 none] ∧
+    (Py.callBody pySub 20 cexBaseExit {}).2.log = [.init 1, .enter 1, .exit 1 (some 200), .tick 2] := by decide
+
+/-- with `catchesBase` on (the Python configuration) both witnesses agree with the reference – covered by `C02_full` -/
+example : toCall (PS.bodyStmts Cfg.python pySub 20 cexBaseHandler {}) = Py.callBody pySub 20 cexBaseHandler {} ∧
+    toCall (PS.bodyStmts Cfg.python pySub 20 cexBaseExit {}) = Py.callBody pySub 20 cexBaseExit {} := by decide
+
+/-! ### a pending `return <value>` belongs to the activation that executed it -/
+
+/-- **Return values are per activation.**  With one fresh `EvalReturn` object per execution of a return statement (today's
+`ast_return`), for EVERY interleaving of activations of a function – recursion from a finally clause / `__exit__`, other
+tasks running the same function while this one is suspended with its return pending – each `EvalFunc.call` returns the
+value of the return statement that its own activation executed last. -/
+theorem C02_return_value_per_activation (evs : List MEv) : MStore.run .fresh evs = RetSpec.run evs :=
+  (minv_run evs {} {} ⟨rfl, by intro a i h; simp at h, by intro a; simp [MStore.valOf]⟩).1
+
+
+/-- non-vacuity / regression witness: with ONE marker object cached per `ast.Return` node the second activation overwrites
+the first one's pending value (and, when the consumer clears it, leaves None behind) -/
+def twoPending : List MEv := [.ret 1 0 1007, .ret 2 0 2007, .take 1, .take 2]
+theorem C02_regress_shared_return_marker :
+    MStore.run .fresh twoPending = [(1, some 1007), (2, some 2007)] ∧
+    MStore.run (.perNode true) twoPending = [(1, some 2007), (2, none)] ∧
+    MStore.run (.perNode false) [.ret 2 0 20, .ret 1 0 10, .take 1, .take 2] = [(1, some 10), (2, some 10)] := by decide
 
 /-- the handlers as they were before the `fix:` commits: agreement only without a jump in a loop's `else` clause and
 with single-manager `with` statements whose `__enter__` does not raise -/
@@ -170,7 +408,7 @@ def sample : List Stmt :=
   [.for_ 1 [.try_ [.ite 2 [.raise 5 (some 6)] [.cont], .tick 3] [.mk (some [5]) (.tick 40) [.tick 4, .reraise], .mk none .plain [.brk]]
               [.tick 5] [.tick 6, .assert_ 7]] [.tick 8],
    .with_ [{ id := 1, suppress := true }] [.while_ 9 [.ret 3] []], .ret 4]
-example : confL Cfg.preFix sample = true ∧ freeJumpL sample = false := by decide
+example : confL Cfg.preFix sample = true ∧ freeJumpL sample = false ∧ quietL sample = true := by decide
 
 /-- **Tie (translator).**  The statement handlers this model mirrors exist in the extracted source tree (dispatch in
 `aeval` is by handler name). -/
